@@ -137,10 +137,10 @@ func (l loader) FindHandlerByType(string) (string, any, error) {
 	return "", nil, blobserver.ErrHandlerTypeNotFound
 }
 func (l loader) AllHandlers() (map[string]string, map[string]any) { return nil, nil }
-func (l loader) MyPrefix() string                                  { return "/bp/" }
-func (l loader) BaseURL() string                                   { return "http://localhost" }
-func (l loader) GetHandlerType(string) string                      { return "" }
-func (l loader) GetHandler(p string) (any, error)                  { return l.GetStorage(p) }
+func (l loader) MyPrefix() string                                 { return "/bp/" }
+func (l loader) BaseURL() string                                  { return "http://localhost" }
+func (l loader) GetHandlerType(string) string                     { return "" }
+func (l loader) GetHandler(p string) (any, error)                 { return l.GetStorage(p) }
 func (l loader) GetStorage(p string) (blobserver.Storage, error) {
 	switch p {
 	case "/small/":
